@@ -17,7 +17,8 @@ Record obs := mkobs {
 Record sd := mksd {
   d_sid : N; d_backend : N; d_kind : N; d_user : N; d_authuser : N; d_room : option (N * N); d_rs : N;
   d_conn : option N; d_incall : bool; d_perms : option N; d_pubs : N; d_nsubs : N; d_pending : N;
-  d_counted : bool; d_parent : N }.
+  d_counted : bool; d_parent : N;
+  d_pubmedia : N   (* audio (bit 0) / video (bit 1) carried by the session's non-screen publishers *) }.
 
 Record digest := mkdigest {
   g_sessions : list sd;
@@ -153,14 +154,17 @@ Definition sd_of (h : hub) (e : N * session) : sd :=
        s.(s_room) (if is_virtual s.(s_kind) then 0 else s.(s_rs)) s.(s_conn) (in_call h sid s) s.(s_perms) (pubs_mask s.(s_pubs))
        (N.of_nat (length s.(s_subs))) (pending_len s.(s_pending))
        (nmem sid (counted_of h s.(s_backend)))
-       (match s.(s_kind) with KVirtual p _ => p | _ => 0 end).
+       (match s.(s_kind) with KVirtual p _ => p | _ => 0 end)
+       (fold_left (fun acc e => if N.eqb (fst e) 2 then acc
+                                else N.lor acc (N.land (match aget s.(s_pubmedia) (snd e) with Some m => m | None => 0 end) 3))
+                  s.(s_pubs) 0).
 
 Definition sd_eqb (a b : sd) : bool :=
   N.eqb a.(d_sid) b.(d_sid) && N.eqb a.(d_backend) b.(d_backend) && N.eqb a.(d_kind) b.(d_kind) &&
   N.eqb a.(d_user) b.(d_user) && N.eqb a.(d_authuser) b.(d_authuser) && opt_pair_eqb a.(d_room) b.(d_room) && N.eqb a.(d_rs) b.(d_rs) &&
   optN_eqb a.(d_conn) b.(d_conn) && Bool.eqb a.(d_incall) b.(d_incall) && optN_eqb a.(d_perms) b.(d_perms) &&
   N.eqb a.(d_pubs) b.(d_pubs) && N.eqb a.(d_nsubs) b.(d_nsubs) && N.eqb a.(d_pending) b.(d_pending) &&
-  Bool.eqb a.(d_counted) b.(d_counted) && N.eqb a.(d_parent) b.(d_parent).
+  Bool.eqb a.(d_counted) b.(d_counted) && N.eqb a.(d_parent) b.(d_parent) && N.eqb a.(d_pubmedia) b.(d_pubmedia).
 
 Definition room_entry_eqb (a b : (N * N) * list N * list N) : bool :=
   let '(k, m, i) := a in let '(k', m', i') := b in
